@@ -106,6 +106,10 @@ where
     pub fn is_empty(&self) -> bool {
         self.events.is_empty()
     }
+
+    pub fn len(&self) -> usize {
+        self.events.len()
+    }
 }
 
 impl<K, V> MapEventQueue<K, V> for EventQueue<K, ()>
